@@ -6,6 +6,7 @@ PROP = "C02"
 LEVEL = "exploration"
 SHARDS = {"quick": 8, "thorough": 16}
 TIMEOUT = {"quick": 900, "thorough": 7200}
+THOROUGH_MULT = 2   # thorough budgets below are multiplied by this (sized for roughly five minutes on 16 cores)
 REQUIRED = {"ckd_pub": 500, "pair_walk": 100, "refuse_hardened": 100, "ckd_pub_prf": 50, "wallet_route": 100}
 ANCHORS = ['bip32:PubKeyNode.ckd', 'bip32:PubKeyNode.derive_path', 'bip32:PubKeyNode.generate_children', 'bip32:PubKeyNode.extended_public_key']
 RULE = ("seeded generator over public parents (from scalar classes incl. x-coordinates with leading zero bytes, both "
@@ -182,7 +183,15 @@ def judge_wallet_route(ctx, case):
             from ..ref import path as rpath
             return w.by_path(rpath.fmt(path, "M"))
         if how == "derive_path":
-            return w.master.derive_path(index_list=list(path))
+            # the index path in the shape chosen for this case (the unchanged code accepts any iterable); both sides get the
+            # SAME indexes, so whatever the shape, the two answers must describe the same node
+            try:
+                return w.master.derive_path(index_list=gen.path_form(case.get("pform", "list"), path))
+            except TypeError:
+                if case.get("pform", "list") in ("list", "tuple"):
+                    raise
+                ctx.extra["path_shape_refused"] = ctx.extra.get("path_shape_refused", 0) + 1
+                return w.master.derive_path(index_list=list(path))
         if how == "generate_children" and path:
             n = w.master.derive_path(index_list=list(path[:-1]))
             return n.generate_children(interval=(path[-1], path[-1] + 1))[0]
@@ -220,7 +229,8 @@ def judge_wallet_route(ctx, case):
         if got != ref.xpub(rb32.version_for("pub", tn, pur)):
             bad.append(("node_extended_public_key", ref.xpub(rb32.version_for("pub", tn, pur)), got))
     return ctx.judge("wallet_route", not bad, case, ref.fields(), bad[:4],
-                     cls="route|%s|prv%d|pub%d|%s|%s" % (net, case["prv_purpose"], case["pub_purpose"], case["how_prv"], case["how_pub"]),
+                     cls="route|%s|prv%d|pub%d|%s|%s|%s" % (net, case["prv_purpose"], case["pub_purpose"], case["how_prv"], case["how_pub"],
+                                                            case.get("pform", "list") if "derive_path" in (case["how_prv"], case["how_pub"]) else "-"),
                      mech="C02.wallet_route." + (bad[0][0] if bad else ""))
 
 
@@ -360,7 +370,8 @@ def run(ctx):
             base.update({"testnet": bool(j & 1), "prv_purpose": rnd.choice([44, 49, 84]), "pub_purpose": [44, 49, 84][(j // 2) % 3],
                          "path": [gen.index(rnd, hardened=False)[1] for _ in range(rnd.randrange(0, 5))],
                          "how_prv": rnd.choice(["by_path", "derive_path", "ckd", "generate_children"]),
-                         "how_pub": rnd.choice(["by_path", "derive_path", "ckd", "generate_children"])})
+                         "how_pub": rnd.choice(["by_path", "derive_path", "derive_path", "ckd", "generate_children"]),
+                         "pform": rnd.choice(gen.PATH_FORMS)})
             judge_wallet_route(ctx, base)
         pstate["stubbed"] = True
         for _ in range(ctx.scale(40, 3000)):
